@@ -166,15 +166,17 @@ func runOne(req *RunReq) (ans *RunAns, mustExit bool) {
 			return
 		}
 		stage = "run"
+		// a thread pool per program so that output printed by pool threads is captured; sizes default
+		// to the configured ones (ELK_DEFAULT_THREAD_POOL_SIZE / _QUEUE_SIZE, read in package init).
+		// The queue is never closed: tasks that were started but not awaited may still settle.
 		pool, queue := req.Pool, req.Queue
 		if pool <= 0 {
-			pool = 4
+			pool = vm.DefaultThreadPool.ThreadCount()
 		}
 		if queue <= 0 {
-			queue = 256
+			queue = vm.DefaultThreadPool.TaskQueueSize()
 		}
 		tp := vm.NewThreadPool(pool, queue, vm.WithStdout(&stdout))
-		defer close(tp.TaskQueue)
 		v := vm.New(vm.WithStdout(&stdout), vm.WithThreadPool(tp))
 		res, elkErr := v.InterpretTopLevel(fn)
 		if !elkErr.IsUndefined() {
